@@ -23,7 +23,9 @@ def rain_value(rng, thr_s, kind):
     if kind == 'light':
         return max(0.0, rng.choice([thr_s, thr_s / 2, nextafter(thr_s, False), 0.1, thr_s]))
     if kind == 'heavy':
-        return rng.choice([nextafter(thr_s), thr_s * 2, thr_s + 1.5, 3 * thr_s, thr_s + 0.25])
+        # (with a zero threshold the value just above it would be the denormal 5e-324 mm/h, whose depth over a step
+        # underflows to 0: not a rainfall record; use a small normal number instead)
+        return rng.choice([nextafter(thr_s) if thr_s > 0 else 0.01, thr_s * 2, thr_s + 1.5, 3 * thr_s, thr_s + 0.25])
     raise ValueError(kind)
 
 
